@@ -84,7 +84,8 @@ func violatedKeys(dir, props, known string) (map[string]bool, string) {
 	ev, _ := os.MkdirTemp("", "absnfs-ctl-ev-")
 	defer os.RemoveAll(ev)
 	cmd := exec.Command(self, "-repo", dir, "-prop", props, "-tier", "quick", "-out", ev, "-known", known, "-list")
-	cmd.Env = append(os.Environ(), "VERIF_TIER=quick")
+	// two threads per analysis: wall time is the same as with sixteen, CPU time a third
+	cmd.Env = append(os.Environ(), "VERIF_TIER=quick", "GOMAXPROCS=2")
 	outB, _ := cmd.CombinedOutput()
 	keys := map[string]bool{}
 	note := ""
